@@ -950,9 +950,14 @@ pub fn check_c01(path: &str, data: &[u8], req: &Req, cnt: &mut Counters) {
         Some((gb.len(), s1.len() + s2.len()))
     });
     match res {
+        Err(class) if path.starts_with("generated:") && req.text.len() > 64 => {
+            // generated adversarial cases are identified by their name and length, not by the text
+            cnt.fail("C01", &format!("panic-{}", class), path, &Req { text: vec![], ..req.clone() }, &format!("n={}", req.text.len()))
+        }
         Err(class) => cnt.fail("C01", &format!("panic-{}", class), path, req, ""),
         Ok(None) => cnt.bump("face_rejected"),
         Ok(Some((n_out, _))) => {
+            cnt.extra.insert("last_out_len".to_string(), n_out as u64);
             let n = req.text.len();
             let bound = std::cmp::max(64 * n, 16384);
             if n_out > bound {
@@ -1053,6 +1058,10 @@ fn c01gen(tr: &mut Option<std::fs::File>) {
     let mut cnt = Counters::default();
     let mut run_case = |name: &str, spec: &FontSpec, req: Req, cnt: &mut Counters, tr: &mut Option<std::fs::File>| {
         let data = build(spec);
+        if let Ok(dir) = std::env::var("RBV_DUMP_DIR") {
+            let _ = std::fs::create_dir_all(&dir);
+            let _ = std::fs::write(format!("{}/generated-{}.ttf", dir, name), &data);
+        }
         trace(tr, &format!("c01gen {} n={}", name, req.text.len()));
         let t0 = std::time::Instant::now();
         check_c01(&format!("generated:{}", name), &data, &req, cnt);
@@ -1060,7 +1069,7 @@ fn c01gen(tr: &mut Option<std::fs::File>) {
         if ms > 20_000 {
             cnt.fail("C01", "slow", &format!("generated:{}", name), &Req { text: vec![], ..req.clone() }, &format!("ms={} n={}", ms, req.text.len()));
         }
-        println!("c01gen-case {} n={} ms={}", name, req.text.len(), ms);
+        println!("c01gen-case {} n={} out={} ms={}", name, req.text.len(), cnt.extra.get("last_out_len").copied().unwrap_or(0), ms);
     };
     let text_of = |n: usize, cps: &[u32]| -> Vec<(u32, u32)> { (0..n).map(|i| (cps[i % cps.len()], i as u32)).collect() };
     // 1. growth bomb: 14 lookups, each a -> a a
@@ -1116,8 +1125,68 @@ fn c01gen(tr: &mut Option<std::fs::File>) {
         for n in [100usize, 20_000, 200_000] {
             run_case("cursive-rtl-flag", &f, Req { text: text_of(n, &[pua(0)]), flags: 3, ..Default::default() }, &mut cnt, tr);
         }
-        f.gpos = Some(Layout::single_feature(*b"curs", vec![Lookup::with_flags(0, vec![cur])]));
+        f.gpos = Some(Layout::single_feature(*b"curs", vec![Lookup::with_flags(0, vec![cur.clone()])]));
         run_case("cursive", &f, Req { text: text_of(200_000, &[pua(0)]), flags: 3, ..Default::default() }, &mut cnt, tr);
+        // two cursive lookups with opposite RightToLeft flags: the second one reverses the chain the first built
+        for (fl1, fl2) in [(0u16, 1u16), (1, 0)] {
+            f.gpos = Some(Layout::single_feature(*b"curs", vec![Lookup::with_flags(fl1, vec![cur.clone()]), Lookup::with_flags(fl2, vec![cur.clone()])]));
+            for n in [50usize, 20_000, 200_000] {
+                run_case("cursive-reversed-chain", &f, Req { text: text_of(n, &[pua(0)]), flags: 3, ..Default::default() }, &mut cnt, tr);
+                run_case("cursive-reversed-chain-rtl", &f, Req { text: text_of(n, &[pua(0)]), flags: 3, dir: Some(Direction::RightToLeft), ..Default::default() }, &mut cnt, tr);
+            }
+        }
+    }
+    // 4a. nested ligatures: 15 x a -> L1, then 18 x L1 -> L2 (270 components: beyond every 8-bit counter);
+    //     very wide advances (the serializer sums them)
+    {
+        let mut f = FontSpec::basic(5);
+        let l1 = SubstSubtable::Ligature { coverage: Coverage::Glyphs(vec![1]), ligature_sets: vec![vec![crate::fontgen::Ligature { glyph: 2, components: vec![1; 14] }]] };
+        let l2 = SubstSubtable::Ligature { coverage: Coverage::Glyphs(vec![2]), ligature_sets: vec![vec![crate::fontgen::Ligature { glyph: 3, components: vec![2; 17] }]] };
+        f.gsub = Some(Layout::single_feature(*b"liga", vec![Lookup::one(l1), Lookup::one(l2)]));
+        for n in [270usize, 271, 540, 4000] {
+            run_case("nested-ligatures", &f, Req { text: text_of(n, &[pua(0)]), flags: 3, ..Default::default() }, &mut cnt, tr);
+        }
+        let mut w = FontSpec::basic(3);
+        w.hadv = vec![65535, 65535, 65535];
+        for n in [40_000usize, 70_000] {
+            run_case("wide-advances", &w, Req { text: text_of(n, &[pua(0)]), flags: 3, ..Default::default() }, &mut cnt, tr);
+            run_case("wide-advances-ttb", &w, Req { text: text_of(n, &[pua(0)]), flags: 3, dir: Some(Direction::TopToBottom), ..Default::default() }, &mut cnt, tr);
+        }
+    }
+    // 4b. two cursive glyphs separated by 32768 / 65536 skipped marks (IgnoreMarks): the parent-child distance
+    //     no longer fits the 16-bit attachment chain
+    {
+        let mut f = FontSpec::basic(4);
+        f.gdef = Some(Gdef { glyph_classes: vec![(1, 1), (2, 3)], mark_attach_classes: vec![], mark_glyph_sets: vec![] });
+        let cur = PosSubtable::Cursive { coverage: Coverage::Glyphs(vec![1]), entry_exit: vec![(Some(Anchor { x: 0, y: 10 }), Some(Anchor { x: 500, y: 30 }))] };
+        for fl in [0x8u16, 0x9] {
+            f.gpos = Some(Layout::single_feature(*b"curs", vec![Lookup::with_flags(fl, vec![cur.clone()])]));
+            for k in [32767usize, 32768, 65535, 65536] {
+                let mut text: Vec<(u32, u32)> = vec![(pua(0), 0)];
+                text.extend((0..k).map(|i| (pua(1), 1 + i as u32)));
+                text.push((pua(0), 1 + k as u32));
+                text.push((pua(0), 2 + k as u32));
+                run_case("cursive-far-apart", &f, Req { text, flags: 3, ..Default::default() }, &mut cnt, tr);
+            }
+        }
+    }
+    // 4c. Syriac abbreviation mark stretched (stch) over a very long word of very wide letters: the widths
+    //     are summed in 32 bits
+    {
+        let mut f = FontSpec::basic(6);
+        f.cmap = vec![(0x070F, 1), (0x0712, 2), (0x0713, 5)];
+        f.hadv = vec![500, 300, 65535, 100, 10, 40000];
+        let mut l = Layout::single_feature(*b"stch", vec![Lookup::one(SubstSubtable::Multiple { coverage: Coverage::Glyphs(vec![1]), sequences: vec![vec![3, 4, 3]] })]);
+        for sc in l.scripts.iter_mut() {
+            sc.tag = *b"syrc"; // the Arabic shaper is used for Syriac only when the font has the script
+        }
+        f.gsub = Some(l);
+        for (n, c) in [(8usize, 0x0712u32), (33_000, 0x0712), (70_000, 0x0713), (200_000, 0x0712)] {
+            let mut text: Vec<(u32, u32)> = vec![(0x070F, 0)];
+            text.extend((0..n).map(|i| (c, 1 + i as u32)));
+            run_case("stch-long-word", &f, Req { text: text.clone(), flags: 3, ..Default::default() }, &mut cnt, tr);
+            run_case("stch-long-word-ltr", &f, Req { text, flags: 3, dir: Some(Direction::LeftToRight), ..Default::default() }, &mut cnt, tr);
+        }
     }
     // 5. one base followed by 70000 marks attached by mark-to-base and mark-to-mark
     {
